@@ -342,6 +342,13 @@ def run_c18(t, tier, res):
         pws = [base]
         res.stats["dominant_password_lists"] += 1
     else:
+        if t.chance(1, 4):
+            # the rule name is not new: an earlier, larger training left its files in the directory
+            older, oopts = trainer.gen_list(t, {"nonascii": t.chance(1, 3), "encoding": enc}, min_lines=20, max_lines=40)
+            oopts = dict(oopts, ngram=opts["ngram"], encoding=enc)
+            older = older + ["zq%dxv%d" % (i, i * 7) for i in range(t.between(5, 40))]
+            tro = trainer.train(older, oopts)
+            res.faults["rule_name_trained_before_with_larger_model"] += 1 if tro.ok else 0
         tr = trainer.train(pws, opts)
     if flavour.get("large"):
         res.stats["large_lists_trained" if tr.ok else "large_lists_not_trained"] += 1
